@@ -2216,8 +2216,9 @@ func (f *fragment) importValueSmallWrite(columnIDs []uint64, values []int64, bit
 		_ = f.openStorage(true)
 		return err
 	}
-	rowSet := make(map[uint64]struct{}, bitDepth+1)
-	for i := uint(0); i < bitDepth+1; i++ {
+	// exists row, sign row and bitDepth value rows
+	rowSet := make(map[uint64]struct{}, bitDepth+bsiOffsetBit)
+	for i := uint(0); i < bitDepth+bsiOffsetBit; i++ {
 		rowSet[uint64(i)] = struct{}{}
 	}
 	err := f.importPositions(toSet, toClear, rowSet)
@@ -2257,9 +2258,10 @@ func (f *fragment) importValue(columnIDs []uint64, values []int64, bitDepth uint
 		_ = f.openStorage(true)
 		return err
 	}
-	// Invalidate the checksums of the blocks holding the BSI rows.
+	// Invalidate the checksums of the blocks holding the BSI rows and the cached rows.
 	for i := uint64(0); i < uint64(bitDepth)+bsiOffsetBit; i++ {
 		delete(f.checksums, int(i/HashBlockSize))
+		f.rowCache.Add(i, nil)
 	}
 
 	// We don't actually care, except we want our stats to be accurate.
